@@ -1239,8 +1239,34 @@ fn run_once(case: &J, tr: u64, enc2: bool) -> Run {
                 if fam.kind.get(&('f', owner)) != Some(&'L') {
                     continue;
                 }
+                // mem_copy2: a memory.copy whose destination is the chosen memory and whose source is ANOTHER memory
+                // (the youngest other one): two reference sites in one instruction
+                let mut second: Option<(i64, u32)> = None;
+                if sk == "mem_copy2" {
+                    let other = fam.tok2id.iter().filter(|((c, t), _)| *c == 'm' && *t != tok).map(|((_, t), i)| (*t, *i)).max();
+                    match other {
+                        Some((_, id2)) => second = Some((0, id2)),
+                        None => continue,
+                    }
+                }
                 let s = fam.fresh_site();
-                let code = site_ops(&sk, s, id);
+                let code = if let Some((_, id2)) = second {
+                    let s2 = fam.fresh_site();
+                    second = Some((s2, id2));
+                    vec![
+                        Operator::I32Const { value: SITE + s as i32 },
+                        Operator::Drop,
+                        Operator::I32Const { value: SITE + s2 as i32 },
+                        Operator::Drop,
+                        Operator::I32Const { value: 0 },
+                        Operator::I32Const { value: 0 },
+                        Operator::I32Const { value: 0 },
+                        Operator::MemoryCopy { dst_mem: id, src_mem: id2 },
+                    ]
+                } else {
+                    site_ops(&sk, s, id)
+                };
+                let sk = if second.is_some() { "mem_copy_dst".to_string() } else { sk };
                 let via = op["via"].as_str().unwrap_or("modifier").to_string();
                 let r = guarded(|| {
                     let mut fm = module.functions.get_fn_modifier(FunctionID(oid)).expect("no modifier");
@@ -1262,6 +1288,14 @@ fn run_once(case: &J, tr: u64, enc2: bool) -> Run {
                 if let Err(m) = r {
                     ev["panic"] = json!(true);
                     ev["msg"] = json!(m);
+                } else if let Some((s2, id2)) = second {
+                    // the source operand is a reference site of its own
+                    let mut e2 = ev.clone();
+                    e2["s"] = json!(s2);
+                    e2["id"] = json!(id2);
+                    e2["sk"] = json!("mem_copy_src");
+                    run.events.push(ev);
+                    ev = e2;
                 }
             }
             "add_export" => {
